@@ -8,3 +8,35 @@ import "time"
 func VerifSliceRange(start, end time.Time, resolution, sliceSize time.Duration) []TimeRange {
 	return sliceRange(start, end, resolution, sliceSize)
 }
+
+// VerifCache drives the real queryCache with a clock the caller controls.
+type VerifCache struct {
+	c   *queryCache
+	now time.Time
+}
+
+func VerifNewCache(maxStale time.Duration, start time.Time) *VerifCache {
+	v := &VerifCache{now: start}
+	v.c = newQueryCache(maxStale, func() time.Time { return v.now })
+	return v
+}
+
+func (v *VerifCache) Advance(d time.Duration) { v.now = v.now.Add(d) }
+
+func (v *VerifCache) Get(key uint64) (any, bool) { return v.c.get(key, "/verif") }
+
+func (v *VerifCache) Set(key uint64, val any, ttl time.Duration) { v.c.set(key, val, ttl) }
+
+func (v *VerifCache) GC() { v.c.gc() }
+
+func (v *VerifCache) Keys() []uint64 {
+	v.c.mu.Lock()
+	defer v.c.mu.Unlock()
+	keys := make([]uint64, 0, len(v.c.entries))
+	for k := range v.c.entries {
+		keys = append(keys, k)
+	}
+	return keys
+}
+
+func (v *VerifCache) Evictions() int { return v.c.evictions }
